@@ -174,11 +174,11 @@ std::string Calendar::node(uint64_t lo, uint64_t r) const {
 	}
 	uint64_t hb = high_bit(r);
 	std::string l = node(lo, hb - 1), rr = node(lo + hb, r - hb);
-	// algorithm switching: the step uses the algorithm of the left operand's subtree "left link" rule; all leaves here
-	// are SHA-256 so the rule is immaterial for the world's own calendar
+	// algorithm rule of the format: the chain fold switches to the sibling's algorithm at a left link and otherwise keeps
+	// the running one - either way a node is hashed with the algorithm of its right child
 	std::string d = l + rr;
 	d.push_back((char)0xff);
-	return imprint(1, d);
+	return imprint((unsigned char)rr[0], d);
 }
 
 std::string Calendar::root(uint64_t p) const { return node(0, p); }
